@@ -26,7 +26,7 @@ from supp.name import MultiName, UndefinedName
 
 PROPERTY = 'C04'
 LEVEL = 'exploration'
-BUDGET_S = {'quick': 110, 'thorough': 1700}
+BUDGET_S = {'quick': 170, 'thorough': 1700}
 UNIT_TIMEOUT_S = 1500
 REPO = os.path.dirname(os.path.dirname(os.path.abspath(supp.scope.__file__)))
 
@@ -216,7 +216,7 @@ def lint_view(text, filename, idents):
 
 
 def check_text(text, filename, rng, stats, max_reads=40, ops=('names_at', 'evaluate', 'declarations'), orders=None,
-               want_lint=True):
+               want_lint=True, stack_faults=None):
     """All part-A checks for one module text.  Returns violations [{'sig','detail','order','op'}]."""
     vios = []
     try:
@@ -279,6 +279,35 @@ def check_text(text, filename, rng, stats, max_reads=40, ops=('names_at', 'evalu
                                  'order': [sel[x] for x in order] + [i], 'op': op, 'read': i})
         if vios:
             break
+    if stack_faults and not vios:
+        # fault injection (see check_project): one query runs out of stack, all queries after it on the same analysis
+        # must answer what a first query answers
+        for vop, vj in stack_faults['victims']:
+            if vj >= len(sel) or vop not in ops or vios:
+                continue
+            vi = sel[vj]
+            for limit in stack_faults['limits']:
+                a = Analysis(text, filename, fresh_project())
+                first = with_stack_limit(limit, lambda: a.query(vop, vi))
+                stats['evals'] += 1
+                if first == fresh[(vop, vi)]:
+                    break
+                stats['faults']['stack_exhausted_inside_query'] = stats['faults'].get('stack_exhausted_inside_query', 0) + 1
+                for op in ops:
+                    for i in sel[:16]:
+                        got = a.query(op, i)
+                        stats['evals'] += 1
+                        if got != fresh[(op, i)] and not _resource(got, fresh[(op, i)]):
+                            node = a.reads[i]
+                            vios.append({'sig': 'C04/after-stack-exhaustion/%s' % op,
+                                         'detail': '%s of read %d ran out of stack %d frames in (answer %r); after it read %r at %r answers %r, asked first it answers %r' % (
+                                             vop, vi, limit, first, node.id, (node.lineno, node.col_offset), got, fresh[(op, i)]),
+                                         'order': None, 'op': op, 'read': i, 'stack': [vop, vj, limit]})
+                            break
+                    if vios:
+                        break
+                if vios:
+                    break
     if want_lint and not vios:
         idents = sorted(set(r.id for r in a0.reads))
         seen, res = lint_view(text, filename, idents)
@@ -454,14 +483,21 @@ def real_files(tier, seed):
 
 def gen_case(seed, i, mode):
     r = prng.rng('c04', seed, mode, i)
-    if mode == 'flow':
-        prof = r.choice(('loops', 'loops', 'loops', 'mixed', 'multi', 'flat'))
-        return {'kind': 'flow', 'prog': F.gen_program(r, prof, size=r.choice((5, 8, 12, 20, 30, 45))), 'rng': r.getrandbits(32)}
-    if mode == 'small':
-        # small loop bodies: every permutation of their reads
-        return {'kind': 'flow', 'prog': small_loop_program(r), 'rng': r.getrandbits(32)}
+    if mode in ('flow', 'small'):
+        if mode == 'flow':
+            prof = r.choice(('loops', 'loops', 'loops', 'mixed', 'multi', 'flat'))
+            case = {'kind': 'flow', 'prog': F.gen_program(r, prof, size=r.choice((5, 8, 12, 20, 30, 45))), 'rng': r.getrandbits(32)}
+        else:
+            # small loop bodies: every permutation of their reads
+            case = {'kind': 'flow', 'prog': small_loop_program(r), 'rng': r.getrandbits(32)}
+        if r.random() < 0.15:
+            case['stack_faults'] = {'victims': [[r.choice(('names_at', 'evaluate', 'declarations')), r.randrange(0, 12)] for _ in range(3)],
+                                    'limits': list(range(6, 60, 3)) + list(range(60, 220, 12))}
+        return case
     if mode == 'heavy':
         return heavy_case(r)
+    if mode == 'shape':
+        return shape_case(r)
     spec = G.gen_project(r)
     if r.random() < 0.2:
         # one module does not parse (somebody is in the middle of typing in it): every request that reaches it raises,
@@ -522,6 +558,47 @@ def literal_requests(r):
         src = 'zl%d = %s\nzl%d.\n' % (k, lit, k)
         out.append({'kind': 'assist', 'source': src, 'position': [2, len('zl%d.' % k)], 'file': 'zqmain.py'})
     return out
+
+
+def shape_case(r):
+    """Project modules of particular shapes that the statement generator does not produce: long alias chains (an
+    evaluation many levels deep that passes through a class and its bases), and attributes assigned to instances
+    from outside the class, through names that are themselves bound through instance attributes."""
+    kind = r.choice(('chain', 'attrassign', 'both'))
+    lines = []
+    asks = []         # expressions to complete on: (text, is_deep)
+    if kind in ('chain', 'both'):
+        n, m = [r.randrange(3, 64) if r.random() < 0.85 else r.choice((90, 130, 200)) for _ in range(2)]
+        lines += ['class Base(object):', '    def base_m(self):', '        return 1', '    battr = 1', 'b0 = Base']
+        lines += ['b%d = b%d' % (i, i - 1) for i in range(1, n + 1)]
+        lines += ['class C(b%d):' % n, '    def own(self):', '        return 2', 'c = C()',
+                  # (through an inherited attribute: the bases are needed in the middle of the deep evaluation)
+                  'y0 = ' + r.choice(('c', 'c.battr', 'C().battr', 'c.base_m()', 'C'))]
+        lines += ['y%d = y%d' % (i, i - 1) for i in range(1, m + 1)]
+        asks += [('c', False), ('y%d' % m, True), ('C', False), ('y%d' % (m // 2), True), ('b%d' % n, True)]
+    if kind in ('attrassign', 'both'):
+        k = r.choice((1, 2, 3))
+        lines += ['class Box(object):', '    def __init__(self):', '        self.x = Inner()', '    def get(self):',
+                  '        return self.x', 'class Inner(object):', '    inner_attr = 1']
+        for j in range(k):
+            via = r.choice(('p%d.x' % j, 'p%d.get()' % j))
+            lines += ['p%d = Box()' % j, 'q%d = Box()' % j, 'first%d = %s' % (j, via), 'first%d.tag%d = 1' % (j, j),
+                      'p%d.late%d = 2' % (j, j), 'q%d.other%d = first%d' % (j, j, j)]
+            asks += [('p%d' % j, False), ('q%d' % j, False), ('first%d' % j, False), ('q%d.other%d' % (j, j), False)]
+    r.shuffle(asks)
+    asks = asks[:7]
+    mod = {'name': 'zqshape', 'version': 1, 'iface': {'classes': [], 'funcs': [], 'insts': [], 'multis': []}, 'items': [['raw', lines]]}
+    reqs = []
+    for text, deep in asks:
+        src = 'import zqshape\nzqshape.%s.\n' % text
+        reqs.append({'kind': 'assist', 'source': src, 'position': [2, len('zqshape.%s.' % text)], 'file': 'zqmain.py'})
+    if kind != 'attrassign':
+        reqs.append({'kind': 'location', 'source': 'import zqshape\nzr = zqshape.c.base_m\n', 'position': [2, 24], 'file': 'zqmain.py'})
+    n = len(reqs)
+    orders = [list(range(n)), list(range(n))[::-1]] + [r.sample(range(n), n) for _ in range(4)]
+    return {'kind': 'project', 'spec': {'modules': [mod]}, 'requests': reqs, 'orders': orders, 'idhash_seed': r.getrandbits(31),
+            'shape': kind,
+            'stack_faults': {'victims': r.sample(range(n), min(3, n)), 'limits': STACK_LIMITS, 'then': list(range(n))}}
 
 
 def heavy_case(r):
@@ -609,6 +686,8 @@ def plan(tier, seed, scale=1.0):
         groups.append([{'kind': 'runs', 'mode': mode, 'seed': seed, 'first': i, 'count': min(per, n - i)}
                        for i in range(0, n, per)])
     groups.append([{'kind': 'runs', 'mode': 'heavy', 'seed': seed, 'first': i, 'count': 1} for i in range(nheavy)])
+    nshape = int((60 if tier == 'quick' else 1200) * scale)
+    groups.append([{'kind': 'runs', 'mode': 'shape', 'seed': seed, 'first': i, 'count': min(5, nshape - i)} for i in range(0, nshape, 5)])
     # interleave the groups so that a wall-clock stop never drops a whole kind of workload
     units = []
     while any(groups):
@@ -637,7 +716,8 @@ def run_case(case, stats):
         idhash.install(case.get('rng', 0))
         try:
             return check_text(text, os.path.join(SCRATCH, 'zqflow.py'), prng.rng('c04-order', case.get('rng', 0)), stats,
-                              max_reads=case.get('max_reads', 20), orders=case.get('orders'))
+                              max_reads=case.get('max_reads', 20), orders=case.get('orders'),
+                              stack_faults=case.get('stack_faults'))
         finally:
             idhash.uninstall()
     if case['kind'] == 'file':
